@@ -29,7 +29,7 @@ func checkC17(r *Run) propMeta {
 	checkTrunkWrites(r)
 	r.Floor("C17-R1-termination", 4)
 	r.Floor("C17-R2-join-cancel", 5)
-	r.Floor("C17-R3-pipe", 7)
+	r.Floor("C17-R3-pipe", 9)
 	return meta
 }
 
@@ -469,9 +469,94 @@ func checkPipe(r *Run) {
 	ast.Inspect(goLit.Body, func(n ast.Node) bool {
 		if s, ok := n.(*ast.SelectStmt); ok {
 			selects = append(selects, s)
+			return false // selects nested inside a case body are judged by the send-source rule below
 		}
 		return true
 	})
+	// send-source: every value sent to the reader is the buffer's head (peeked), unless the send is guarded by an
+	// emptiness test of the buffer; a value that bypasses a non-empty buffer overtakes the buffered ones.
+	{
+		peekFuncs := map[types.Object]bool{} // local closures that return the peeked head (getNext)
+		ast.Inspect(fd.Body, func(n ast.Node) bool {
+			spec, ok := n.(*ast.ValueSpec)
+			if !ok {
+				return true
+			}
+			for i, name := range spec.Names {
+				if i < len(spec.Values) {
+					if fl, ok := spec.Values[i].(*ast.FuncLit); ok {
+						peeks := false
+						ast.Inspect(fl.Body, func(m ast.Node) bool {
+							if call, ok := m.(*ast.CallExpr); ok {
+								if sel, ok := call.Fun.(*ast.SelectorExpr); ok && (sel.Sel.Name == "Front" || sel.Sel.Name == "Back") {
+									peeks = true
+								}
+							}
+							return true
+						})
+						if peeks {
+							peekFuncs[info.Defs[name]] = true
+						}
+					}
+				}
+			}
+			return true
+		})
+		isPeek := func(e ast.Expr) bool {
+			call, ok := ast.Unparen(e).(*ast.CallExpr)
+			if !ok {
+				return false
+			}
+			switch f := call.Fun.(type) {
+			case *ast.SelectorExpr:
+				if tv, ok := info.Types[f.X]; ok {
+					if nt := namedOf(tv.Type); nt != nil && nt.Obj().Name() == "Deque" && (f.Sel.Name == "Front" || f.Sel.Name == "Back") {
+						return true
+					}
+				}
+			case *ast.Ident:
+				return peekFuncs[info.Uses[f]]
+			}
+			return false
+		}
+		var stack []ast.Node
+		sends := 0
+		ast.Inspect(goLit.Body, func(n ast.Node) bool {
+			if n == nil {
+				stack = stack[:len(stack)-1]
+				return true
+			}
+			stack = append(stack, n)
+			send, ok := n.(*ast.SendStmt)
+			if !ok {
+				return true
+			}
+			sends++
+			construct := "BufferedPipe:send-source:" + exprString(r.Fset, send.Value)
+			if isPeek(send.Value) {
+				r.Pass("C17-R3-pipe", construct, send.Pos(), "the value sent to the reader is the buffer's head")
+				return true
+			}
+			guarded := false
+			for _, anc := range stack {
+				if ifs, ok := anc.(*ast.IfStmt); ok && send.Pos() >= ifs.Body.Pos() && send.End() <= ifs.Body.End() {
+					c := exprString(r.Fset, ifs.Cond)
+					if strings.Contains(c, ".Len() == 0") || strings.Contains(c, ".Len() < 1") {
+						guarded = true
+					}
+				}
+			}
+			if guarded {
+				r.Pass("C17-R3-pipe", construct, send.Pos(), "direct hand-off guarded by an empty-buffer test")
+			} else {
+				r.Fail("C17-R3-pipe", construct, send.Pos(), "a value other than the buffer's head is sent to the reader without a test that the buffer is empty: it overtakes every buffered value, so submission order is lost")
+			}
+			return true
+		})
+		if sends == 0 {
+			r.Undecide("C17-R3: no send to the reader channel found in the pipe goroutine")
+		}
+	}
 	if len(selects) != 2 {
 		r.Undecide("C17-R3: expected the main and the flush select, found %d", len(selects))
 		return
